@@ -186,6 +186,8 @@ pub enum Item {
     Include(usize, String),
     /// use of a template name
     Is(String),
+    /// the same through a binding (`is="{{ 'name' }}"`)
+    IsDyn(String),
     /// text showing a script's own path through module i
     Wxs(usize),
 }
@@ -209,7 +211,7 @@ pub struct LinkWorld {
 
 const LPATHS: &[&str] = &["index", "a", "b", "d/a", "d/b", "d/e/a", "p/q/r", "d/index", "x/y"];
 const SPATHS: &[&str] = &["s/one", "lib/two", "d/three"];
-const TNAMES: &[&str] = &["t1", "t2", "t3"];
+const TNAMES: &[&str] = &["t1", "t2", "t3", "toString", "constructor", "a-b"];
 
 fn spell(r: &mut Rng, from: &str, to: &str, suffix: &str) -> String {
     let dir: Vec<&str> = {
@@ -319,6 +321,7 @@ pub fn gen_link_world(seed: u64) -> LinkWorld {
                     let w = r.below(files[i].wxs.len());
                     files[i].body.push(Item::Wxs(w));
                 }
+                _ if r.chance(0.3) => files[i].body.push(Item::IsDyn(r.pick(TNAMES).to_string())),
                 _ => files[i].body.push(Item::Is(r.pick(TNAMES).to_string())),
             }
         }
@@ -347,6 +350,7 @@ impl LinkWorld {
             match it {
                 Item::Include(_, src) => s.push_str(&format!("<include src=\"{}\"/>", src)),
                 Item::Is(n) => s.push_str(&format!("<template is=\"{}\"/>", n)),
+                Item::IsDyn(n) => s.push_str(&format!("<template is=\"{{{{ '{}' }}}}\"/>", n)),
                 Item::Wxs(k) => s.push_str(&format!("<text>{{{{ m{}.path }}}}</text>", k)),
             }
         }
@@ -366,7 +370,7 @@ impl LinkWorld {
                         self.model_render(*j, out);
                     }
                 }
-                Item::Is(n) => {
+                Item::Is(n) | Item::IsDyn(n) => {
                     // local definitions first, then later imports before earlier ones
                     if f.templates.iter().any(|t| t == n) {
                         out.push(format!("T[{}:{}]", f.path, n));
@@ -490,8 +494,15 @@ pub fn run_link_explicit(w: &Value, execs: &[GExec]) -> LinkOut {
         let want: Vec<String> = mr[1].as_array().map(|a| a.iter().filter_map(|x| x.as_str().map(String::from)).collect()).unwrap_or_default();
         let got = resp["renders"].as_array().and_then(|a| a.iter().find(|x| x["root"] == p)).cloned().unwrap_or(Value::Null);
         if got["throws"].is_string() || got["errors"].as_u64().unwrap_or(0) > 0 {
-            stats.add("discard.render_throws", 1);
-            return LinkOut { outcome: Outcome::Discard(format!("rendering {} throws: {}", p, got)), stats, exec: None };
+            // every construct of a link world has a defined rendering (a missing target renders
+            // nothing), so a render that throws linked something the model does not know
+            stats.add("probe.render_throws", 1);
+            return viol(
+                "linked_render_throws",
+                format!("root {}: rendering throws ({}), the resolver/linker model says {:?}", p, got["throws"].as_str().or(got["error"].as_str()).unwrap_or(""), want),
+                None,
+                stats,
+            );
         }
         let texts: Vec<String> = got["texts"].as_array().map(|a| a.iter().filter_map(|x| x.as_str().map(String::from)).collect()).unwrap_or_default();
         stats.add("probe.roots_rendered", 1);
